@@ -137,12 +137,16 @@ def excel_rows(source_path, sheet=1):
         raise errors.DataFormatError("cannot read Excel file: %s" % error, location)
     try:
         with book:
-            sheet = book.sheet_by_index(0)
+            if book.nsheets < sheet:
+                raise errors.DataFormatError(
+                    "Excel file must contain at least %d sheet(s) instead of just %d" % (sheet, book.nsheets), location
+                )
+            sheet_to_read = book.sheet_by_index(sheet - 1)
             datemode = book.datemode
-            for y in range(sheet.nrows):
+            for y in range(sheet_to_read.nrows):
                 row = []
-                for x in range(sheet.ncols):
-                    row.append(_excel_cell_value(sheet.cell(y, x), datemode))
+                for x in range(sheet_to_read.ncols):
+                    row.append(_excel_cell_value(sheet_to_read.cell(y, x), datemode))
                     location.advance_cell()
                 yield row
                 location.advance_line()
@@ -727,6 +731,14 @@ class XlsxRowWriter(AbstractRowWriter):
         :rtype: xlsxwriter.Worksheet
         """
         return self._worksheet
+
+    def write_rows(self, rows_to_write):
+        # NOTE: The inherited write_rows() requires a target stream, which an XLSX writer does not have.
+        assert self.workbook is not None
+        assert rows_to_write is not None
+
+        for row_to_write in rows_to_write:
+            self.write_row(row_to_write)
 
     def write_row(self, row_to_write):
         assert row_to_write is not None
